@@ -65,7 +65,12 @@ def cases(draw):
     g = draw(graphs())
     nc = draw(st.integers(5, 40))
     calls = [dict(ob=draw(st.integers(0, len(g) - 1)), fn=draw(st.integers(0, NF - 1)), origin=draw(st.sampled_from(ORIGINS))) for _ in range(nc)]
-    return dict(graph=g, calls=calls)
+    # the same (object, name) is often called from a second kind of caller as well: what a driver apply runs tells which definition
+    # is the most derived one, and a call_other has to agree with that definition's visibility
+    for c in list(calls):
+        if draw(st.integers(0, 2)) == 0:
+            calls.insert(draw(st.integers(0, len(calls))), dict(ob=c["ob"], fn=c["fn"], origin=draw(st.sampled_from(["driver", "call_other", "local", "call_other_lit"]))))
+    return dict(graph=g, calls=calls[:60])
 
 
 def resolve(g, i, k, seen=None):
@@ -98,6 +103,26 @@ def resolve(g, i, k, seen=None):
             return ("amb",)
         return okc[0]
     return ("none",)
+
+
+def path_candidates(g, i, k):
+    """for a name that program i does not define itself: one entry per inherit statement through which exactly one definition arrives,
+    (definer, flags with the inherit statement's modifier); None when any path is itself unclear"""
+    p = g[i]
+    k = str(k)
+    if k in p["funcs"]:
+        return None
+    out = []
+    for j, imod in p["parents"]:
+        r = resolve(g, j, k)
+        if r[0] == "none":
+            continue
+        if r[0] != "ok" or "private" in r[2] or imod.strip() == "private":
+            return None
+        out.append((r[1], r[2] | ({imod.strip()} - {""})))
+    if len({d for d, _ in out}) != len(out) or len(out) < 2:
+        return None
+    return out
 
 
 def render(g):
@@ -217,6 +242,33 @@ def evaluate_case(ctx, w, case):
         elif orig in ("call_out", "call_out_lit"):
             if o != ("val", repr(("a", [tag]))):
                 return ("wrong-resolution:" + orig, "%r logged %r, expected [%r] (flags %r)\n%s" % (c, o, tag, sorted(r[2]), info)), None
+    # oracle 4: a name that arrives through several inherit statements from different definers. Which definer is the most derived one is
+    # read off a driver / local / function-pointer call of the same (object, name); another object's call_other must then agree with the
+    # visibility of exactly that definition (its own modifiers plus the modifier of the inherit statement it came through).
+    for c, o in zip(calls, outs):
+        if c["origin"] not in ("call_other", "call_other_lit"):
+            continue
+        cands = path_candidates(g, c["ob"], c["fn"])
+        if not cands:
+            continue
+        winners = set()
+        for d, od in zip(calls, outs):
+            if d["ob"] == c["ob"] and d["fn"] == c["fn"] and d["origin"] in ("driver", "local", "fp") and od[0] == "val":
+                for definer, flags in cands:
+                    if od[1] == repr("p%d:f%d:p%d" % (definer, c["fn"], definer)):
+                        winners.add((definer, frozenset(flags)))
+        if len(winners) != 1:
+            continue
+        definer, flags = next(iter(winners))
+        tag = "p%d:f%d:p%d" % (definer, c["fn"], definer)
+        feats.add("two-definers")
+        if flags & {"static", "private", "protected"}:
+            feats.add("refused")
+            if o[0] == "val" and o[1] == repr(tag):
+                return ("hidden-function-ran-for-call_other", "%r returned %r; the definition that driver and local calls run is p%d's, which is %r for this object\n%s\n%s" % (
+                    c, o, definer, sorted(flags), info, render(g)["t/p%d.c" % c["ob"]])), None
+        elif o != ("val", repr(tag)):
+            return ("wrong-resolution:" + c["origin"], "%r gave %r, but driver and local calls run %r, which is visible\n%s\n%s" % (c, o, tag, info, render(g)["t/p%d.c" % c["ob"]])), None
     # non-trivial rule
     nt = False
     for i, c in enumerate(calls):
